@@ -414,15 +414,28 @@ mod verif_sem {
     #[kani::stub(crate::runtime::thread::continuation::switch, verif_switch)]
     #[kani::stub(std::hash::RandomState::new, fixed_random_state)]
     #[kani::stub(crate::backtrace_enabled, stub_false)]
-    fn c18_acquire_poll_first() {
+    fn c18_acquire_poll_first_fair() {
+        poll_first_contract(Fairness::StrictlyFair);
+    }
+
+    #[kani::proof]
+    #[kani::solver(minisat)]
+    #[kani::unwind(5)]
+    #[kani::stub(crate::runtime::thread::continuation::switch, verif_switch)]
+    #[kani::stub(std::hash::RandomState::new, fixed_random_state)]
+    #[kani::stub(crate::backtrace_enabled, stub_false)]
+    fn c18_acquire_poll_first_unfair() {
+        poll_first_contract(Fairness::Unfair);
+    }
+
+    fn poll_first_contract(fairness: Fairness) {
         let mut store = new_store();
         use_store(&mut store);
         let sched = Rc::new(RefCell::new(SpecSched::new()));
         let st = state_with([TaskState::Runnable, BLOCKED, BLOCKED], 0, sched);
         let a: usize = kani::any();
         let n: usize = kani::any();
-        kani::assume(a <= 2 && n >= 1 && n <= 3);
-        let fairness = any_fairness();
+        kani::assume(a <= 1 && n >= 1 && n <= 2);
         let sem = mk_sem(a, fairness, false);
         // created by ANOTHER task (2): the waiter must follow whoever polls it
         let w = mk_waiter(2, n, false, false);
@@ -444,7 +457,7 @@ mod verif_sem {
             assert!(switches() == if fairness == Fairness::StrictlyFair { 1 } else { 0 });
         }
         kani::cover!(n <= a);
-        kani::cover!(n > a && fairness == Fairness::Unfair);
+        kani::cover!(n > a);
         std::mem::forget(acq);
         std::mem::forget(sem);
     }
@@ -477,8 +490,18 @@ mod verif_sem {
     #[kani::stub(crate::runtime::thread::continuation::switch, verif_switch)]
     #[kani::stub(std::hash::RandomState::new, fixed_random_state)]
     #[kani::stub(crate::backtrace_enabled, stub_false)]
+    fn c18_acquire_drop_completed() {
+        acquire_drop_contract(2);
+    }
+
+    #[kani::proof]
+    #[kani::solver(minisat)]
+    #[kani::unwind(5)]
+    #[kani::stub(crate::runtime::thread::continuation::switch, verif_switch)]
+    #[kani::stub(std::hash::RandomState::new, fixed_random_state)]
+    #[kani::stub(crate::backtrace_enabled, stub_false)]
     fn c18_acquire_drop_inert() {
-        acquire_drop_contract(if kani::any() { 2 } else { 3 });
+        acquire_drop_contract(3);
     }
 
     fn acquire_drop_contract(case: u8) {
